@@ -125,47 +125,90 @@ def check_regexp_recursion(ctx, rep, f, st):
     return len(tested)
 
 
+class _Undecided(Exception):
+    pass
+
+
+def _class_case_return(f, var, K):
+    """the statement that ends a run of f when `var` is an instance of class K (and of no other leaf class), with the
+    local single assignments seen on the way; isinstance tests on var are evaluated, any other test is undecided"""
+    env = {}
+
+    def truth(t):
+        if isinstance(t, ast.UnaryOp) and isinstance(t.op, ast.Not):
+            return not truth(t.operand)
+        if isinstance(t, ast.BoolOp):
+            vals = [truth(v) for v in t.values]
+            return all(vals) if isinstance(t.op, ast.And) else any(vals)
+        if isinstance(t, ast.Call) and isinstance(t.func, ast.Name) and t.func.id == 'isinstance' and len(t.args) == 2 and u(t.args[0]) == var:
+            elts = t.args[1].elts if isinstance(t.args[1], ast.Tuple) else [t.args[1]]
+            names = [u(x).split('.')[-1] for x in elts]
+            return K in names or 'Regexp' in names
+        raise _Undecided('condition ' + u(t))
+
+    def run(stmts):
+        for st in stmts:
+            if isinstance(st, ast.Assign) and len(st.targets) == 1 and isinstance(st.targets[0], ast.Name):
+                env[st.targets[0].id] = st.value
+                continue
+            if isinstance(st, ast.If):
+                r = run(st.body) if truth(st.test) else run(st.orelse)
+                if r is not None:
+                    return r
+                continue
+            if isinstance(st, (ast.Return, ast.Raise)):
+                return st
+            if isinstance(st, (ast.Expr, ast.Pass, ast.Assert)):
+                continue
+            raise _Undecided('statement ' + type(st).__name__)
+        return None
+    return run(f.node.body), env
+
+
 def check_generator_mapping(ctx, rep, f):
     """RegexpToNFAGenerator.generate: Iteration -> nfa_repetition, Sum -> nfa_union, Concat -> nfa_concatenation, with the
-    sub-automata generated from the matching children in order and the private generator passed on"""
+    sub-automata generated from the matching children in order and the private generator passed on.  Decided per class of
+    the node by following the body with the isinstance tests evaluated (any arrangement of the tests gives the same cases)."""
     want = {'Iteration': ('nfa_repetition', ['operand']), 'Sum': ('nfa_union', ['left', 'right']), 'Concat': ('nfa_concatenation', ['left', 'right']),
             'Zero': ('generate_zero', []), 'One': ('generate_one', []), 'Symbol': ('generate_symbol', None)}
-    for st in f.node.body:
-        if not isinstance(st, ast.If):
+    params = [p for p in f.params if p != 'self']
+    if not params:
+        return
+    var = params[0]
+    for k, (wname, wfields) in want.items():
+        try:
+            end, env = _class_case_return(f, var, k)
+        except _Undecided as e:
+            rep.undecided(RULE + '.a', f, 'case ' + k, 'body outside the fragment: {}'.format(e))
             continue
-        for (t, body) in _if_chain(st, f.node.body):
-            if t is None:
+        if end is None or isinstance(end, ast.Raise) or end.value is None:
+            rep.violates(RULE + '.a', f, 'case ' + k, 'a {} node is not translated (the function {} for it)'.format(k, 'raises' if isinstance(end, ast.Raise) else 'returns nothing'))
+            continue
+        call = end.value
+        if isinstance(call, ast.Name) and call.id in env:
+            call = env[call.id]
+        if not isinstance(call, ast.Call):
+            rep.undecided(RULE + '.a', f, end, 'the {} case does not return a call'.format(k))
+            continue
+        callee = ctx.callee_name(f, call)
+        if callee != wname:
+            rep.violates(RULE + '.a', f, end, 'the {} case is translated with {} instead of {}'.format(k, callee, wname))
+            continue
+        if wfields:
+            got = []
+            for a in call.args[:len(wfields)]:
+                a = env.get(a.id, a) if isinstance(a, ast.Name) else a
+                m = [x for x in ast.walk(a) if isinstance(x, ast.Attribute) and u(x.value) == var]
+                got.append(m[0].attr if m else None)
+            if got != wfields:
+                rep.violates(RULE + '.a', f, end, 'the sub-automata of {} are generated from {} instead of {} in this order'.format(k, got, wfields))
                 continue
-            tests = _isinstance_classes(ctx, f, t)
-            if not tests or len(tests[0][1]) != 1:
-                continue
-            k = tests[0][1][0][0]
-            if k not in want:
-                continue
-            rets = [r for b in body for r in ast.walk(b) if isinstance(r, ast.Return) and isinstance(r.value, ast.Call)]
-            if not rets:
-                rep.undecided(RULE + '.a', f, t, 'branch does not return a call')
-                continue
-            call = rets[0].value
-            callee = ctx.callee_name(f, call)
-            wname, wfields = want[k]
-            if callee != wname:
-                rep.violates(RULE + '.a', f, rets[0], 'the {} case is translated with {} instead of {}'.format(k, callee, wname))
-                continue
-            if wfields:
-                got = []
-                for a in call.args[:len(wfields)]:
-                    m = [x for x in ast.walk(a) if isinstance(x, ast.Attribute) and u(x.value) == tests[0][0]]
-                    got.append(m[0].attr if m else None)
-                if got != wfields:
-                    rep.violates(RULE + '.a', f, rets[0], 'the sub-automata of {} are generated from {} instead of {} in this order'.format(k, got, wfields))
+            if wname in ('nfa_repetition', 'nfa_union'):
+                passed = [u(a) for a in call.args[len(wfields):]] + [u(kw.value) for kw in call.keywords]
+                if 'self.id_generator' not in passed:
+                    rep.violates(RULE + '.a', f, end, 'the private name generator is not passed to {}: the new state comes from the shared default generator and can coincide with a state of the operands'.format(wname))
                     continue
-                if wname in ('nfa_repetition', 'nfa_union'):
-                    passed = [u(a) for a in call.args[len(wfields):]] + [u(kw.value) for kw in call.keywords]
-                    if 'self.id_generator' not in passed:
-                        rep.violates(RULE + '.a', f, rets[0], 'the private name generator is not passed to {}: the new state comes from the shared default generator and can coincide with a state of the operands'.format(wname))
-                        continue
-            rep.holds(RULE + '.a', f, rets[0], '{} is translated with {}{}'.format(k, wname, ' on ' + '/'.join(wfields) if wfields else ''))
+        rep.holds(RULE + '.a', f, end, '{} is translated with {}{}'.format(k, wname, ' on ' + '/'.join(wfields) if wfields else ''))
 
 
 def check_kind_dispatch(ctx, rep, f, suffix, rule=RULE + '.b'):
